@@ -38,12 +38,16 @@ PoolC16 == <<
   HideR({H("a.com"), H("пример.рф"), E("пример")}, ".idn"), UnhideR({H("b.com"), H("s.пример.рф")}, ".idn"),
   HideR({H("bücher.a.com"), NH("a.com")}, ".idn2"),
   \* hosts whose name contains the text of their public suffix before the suffix itself
+  HideR({H("a.internal")}, ".int"), HideR({E("a"), NH("t.s.a.internal")}, ".ient"), JsR({H("a.internal")}, "sc1, i", {}),
   HideR({E("comcast")}, ".cc"), HideR({E("internet")}, ".inet"), UnhideR({E("s.comcast")}, ".cc"), HideR({H("net")}, ".tldnet"),
   ActR({E("comcast")}, ".cca", "remove", "")
 >>
 HostsC16 == <<"a.com", "s.a.com", "t.s.a.com", "b.com", "a.co.uk", "s.a.co.uk", "xa.com", "a.b.com", "com", "a.net",
               "пример.рф", "s.пример.рф", "bücher.a.com", "comcast.com", "s.comcast.com", "internet.net", "s.a.net", "t.s.a.net",
-              "s.b.com", "co.uk.a.co.uk">>
+              "s.b.com", "co.uk.a.co.uk",
+              \* a top-level label that is not in the public suffix list: the default rule applies (the suffix
+              \* is the last label), so rules on the registrable domain and on the entity reach the subdomains
+              "a.internal", "s.a.internal", "t.s.a.internal">>
 \* generichide exceptions; the page is its own source, so domain= names (or negates) the page host
 NetC16 == <<"@@||s.a.com^$generichide", "@@||a.co.uk^$generichide", "@@||a.net^$generichide,domain=s.a.net",
             "@@||b.com^$generichide,domain=~s.b.com">>
